@@ -59,3 +59,19 @@ CHECKS["C06"] = {
         rapid_job("corrupt", "./verifh/c06", "TestCorruptMask", 6000, 40000),
     ],
 }
+
+CHECKS["C16"] = {
+    "rule": ("rapid-generated pairs made by mutating a common ancestor in 0-2 places per side (TestAllTypes with NaN/Inf/-0, WellKnown, Pull*Response.Change, trait messages; "
+             "nil, typed nil, other type, permuted/independent unknown fields); tolerances drawn just below/at/just above the actual differences; comparers alone and combined "
+             "(ValueAnd/ValueOr/And/Or); oracle = proto.Equal with change_time stripped for the default comparer, an independent structural walker with arithmetic predicates for "
+             "tolerance comparers; plus Value/Collection with an equivalence and a backpressured subscriber (delivered == writes not equivalent to what the subscriber holds). "
+             "non-trivial = pair differing in exactly one field of a compared kind, an equal pair / nil / unknown-field / NaN corner for the default comparer, or a resource history with >=1 suppressed write; "
+             "distinct by (comparer, pair)"),
+    "assumptions": ["pairs where only one side has change_time are counted, not asserted", "DurationValueWithinP is checked for reflexivity and symmetry only ('p percent' is not precise enough for exact verdicts)",
+                    "float predicates are evaluated in float64 with the same formula shape as documented: |x-y| <= max(margin, fraction*min(|x|,|y|))"],
+    "jobs": [
+        rapid_job("default", "./verifh/c16", "TestDefaultEqual", 30000, 200000),
+        rapid_job("tolerance", "./verifh/c16", "TestTolerance|TestDurationWithinP", 30000, 200000),
+        rapid_job("resource", "./verifh/c16", "TestValueEquivalence|TestCollectionEquivalence", 3000, 20000),
+    ],
+}
